@@ -29,6 +29,8 @@ def r14_1(ctx) -> None:
         raise AnalysisError("KeySet.get_by_kid vanished")
     sn = fn.self_name
     kp = fn.pos_params[1]
+    loops0 = [l for l in cfg_of(fn).nodes if l.kind == "loop"]
+    KV = norm(loops0[0].ast.target) if len(loops0) == 1 and isinstance(loops0[0].ast.target, ast.Name) else "key"  # type: ignore[union-attr]
 
     def atom(e: ast.AST):
         if isinstance(e, ast.Compare) and len(e.ops) == 1:
@@ -37,7 +39,7 @@ def r14_1(ctx) -> None:
                 return ("kid_none", isinstance(e.ops[0], ast.Is))
             if l == f"len({sn}.keys)" and const_value(e.comparators[0]) == 1 and isinstance(e.ops[0], (ast.Eq, ast.NotEq)):
                 return ("single", isinstance(e.ops[0], ast.Eq))
-            if {l, r} == {"key.kid", kp} and isinstance(e.ops[0], (ast.Eq, ast.NotEq)):
+            if {l, r} == {f"{KV}.kid", kp} and isinstance(e.ops[0], (ast.Eq, ast.NotEq)):
                 return ("kid_match", isinstance(e.ops[0], ast.Eq))
         return None
     outs = outcomes(fn, atom)
@@ -48,7 +50,7 @@ def r14_1(ctx) -> None:
             n += 1
             rv = norm(o.node.ast.value) if o.node is not None and o.node.ast.value is not None else ""
             a = o.literals.get("kid_none") is True and o.literals.get("single") is True and rv == f"{sn}.keys[0]"
-            b = o.literals.get("kid_match") is True and rv == "key"
+            b = o.literals.get("kid_match") is True and rv == KV
             if o.unknown or not (a or b):
                 ctx.fail("R14.1", fn, o.node.ast if o.node else fn.node, f"get_by_kid returns {rv} on a path that established neither `kid is None and a single key` nor "
                          f"`key.kid == kid` (literals {o.literals}, unknown {o.unknown})", construct=f"unguarded return {rv}")
@@ -61,7 +63,7 @@ def r14_1(ctx) -> None:
             good = False
     # the loop runs over the set's keys
     loops = [l for l in cfg_of(fn).nodes if l.kind == "loop"]
-    okl = len(loops) == 1 and norm(loops[0].ast.iter) in (f"{sn}.keys", sn) and norm(loops[0].ast.target) == "key"
+    okl = len(loops) == 1 and norm(loops[0].ast.iter) in (f"{sn}.keys", sn) and norm(loops[0].ast.target) == KV
     ctx.check(okl, "R14.1", fn, fn.node, f"{fn.short} :: iterates self.keys", "get_by_kid does not search all keys of the set", "for key in self.keys", construct="get_by_kid loop")
     if good:
         ctx.ok("R14.1", f"{fn.short} :: returns", f"{n} return paths: each guarded by (kid is None and len(keys) == 1) or key.kid == kid; fall-through raises InvalidKeyIdError")
